@@ -6,6 +6,7 @@ returns a Result with the ledger, outcomes, violations, statistics and digest.""
 from __future__ import annotations
 
 import hashlib
+import re
 import traceback
 
 from . import sut
@@ -372,10 +373,14 @@ def _b(x):
     return x.encode() if isinstance(x, str) else x
 
 
+_ADDR = re.compile(r"0x[0-9a-fA-F]{6,}")
+
+
 def exc_record(e):
     cls = type(e)
     mod = cls.__module__
-    return {"exc": cls.__name__, "mod": mod, "msg": str(e)[:200],
+    # (messages of the protocol libraries may quote object addresses)
+    return {"exc": cls.__name__, "mod": mod, "msg": _ADDR.sub("0x?", str(e))[:200],
             "documented": isinstance(e, documented_exceptions())}
 
 
